@@ -20,7 +20,7 @@ from pyvc.values import AbsObj, Arr, Obj, Opaque, PDict, PList, SV, mk, sym, to_
 # ------------------------------------------------------------------------------------------
 
 OPS = ("add", "update", "remove", "reopen", "add_nan", "add_text", "update_text", "remove_hole_ws", "remove_hole_parent", "copy_group", "group_data", "idle_session",
-       "add_iv", "update_iv", "copy_other_edit", "add_note", "remove_note")
+       "add_iv", "update_iv", "copy_other_edit", "add_note", "remove_note", "group_comment", "group_comment_remove", "rename")
 
 
 def _file_tiling(path):
@@ -104,9 +104,11 @@ def run_history(case):
             model[f"H{h}"] = {}
 
         group_data = {}
+        group_plain = {}
         removed = {}
         table_seen = [False]
         other = [None]  # a second workspace holding a copy of the group, kept open
+        others = []
 
         def check(where):
             g = ws.get_entity("DH")[0]
@@ -114,6 +116,10 @@ def run_history(case):
                 got = [c for c in g.children if c.name == dname]
                 if len(got) != 1 or got[0].values is None or not np.allclose(np.asarray(got[0].values, dtype=float), exp):
                     return f"{where}: group-level data '{dname}' reads {[None if c.values is None else np.asarray(c.values).tolist() for c in got]} but {exp.tolist()} was written"
+            if "comments" in group_plain:
+                has = any(type(c).__name__ == "CommentsData" for c in g.children)
+                if has != group_plain["comments"]:
+                    return f"{where}: the group's own comments are {'present' if has else 'absent'} but should be {'present' if group_plain['comments'] else 'gone (they were removed)'}"
             listed = sorted(c.name for c in g.children if type(c).__name__.endswith("Drillhole"))
             if listed != sorted(model):
                 return f"{where}: the group lists the holes {listed} but the live holes are {sorted(model)}"
@@ -138,6 +144,8 @@ def run_history(case):
                 extra = names - set(datas) - {"DEPTH", "FROM", "TO"}
                 if extra:
                     return f"{where}: {hname} still lists removed data {sorted(extra)}"
+                if set(datas) - names:
+                    return f"{where}: {hname} no longer lists its data {sorted(set(datas) - names)} (it lists {sorted(names)})"
                 # ... and the live hole itself no longer hands the removed data out (lookup by name, child list)
                 for gone in sorted(removed.get(hname, set()) - set(datas)):
                     if [x for x in hole[0].get_data(gone) if x is not None]:
@@ -217,6 +225,12 @@ def run_history(case):
                     hole.remove_children(hole.get_data(name)[0])
                 del model[hname][name]
                 removed.setdefault(hname, set()).add(name)
+            elif op == "rename":
+                # a stored data set gets another name: its values (filed under the name) must follow
+                if name in model[hname] and (name + "_renamed") not in model[hname]:
+                    hole.get_data(name)[0].name = name + "_renamed"
+                    model[hname][name + "_renamed"] = model[hname].pop(name)
+                    removed.setdefault(hname, set()).discard(name + "_renamed")
             elif op in ("add_note", "remove_note"):
                 # a value attached to the hole as a whole (no depth table, no property group)
                 nname = name + "_note"
@@ -259,7 +273,7 @@ def run_history(case):
                                 if dname in ("DEPTH", "FROM", "TO"):
                                     continue
                                 dat = ch.get_data(dname)[0]
-                                if dat.values is not None and np.asarray(dat.values).dtype.kind == "f" and dname in cmodel.get(ch.name, {}):
+                                if dat.values is not None and np.asarray(dat.values).dtype.kind == "f" and dname in cmodel.get(ch.name, {}) and not dname.endswith("_note") and len(dat.values) > 1:
                                     new_vals = (np.asarray(dat.values, dtype=float)[:-1] + 1000.0).astype(np.float32).astype(float)  # shorter: rows move
                                     dat.values = new_vals.copy()
                                     kept = np.full(len(cmodel[ch.name][dname]), np.nan)
@@ -290,6 +304,15 @@ def run_history(case):
                             if gv is None or gv.shape != exp.shape or not np.allclose(gv, exp, equal_nan=True, rtol=1e-6):
                                 return f"after step {step}: {ch.name}/{dname} of the copied group reads {None if gv is None else gv.tolist()} after a re-open, expected {exp.tolist()} ({case})"
                     del cg
+                    # ... and a second, fresh copy loses a hole straight away (nothing re-read in between): the source
+                    # group keeps all of its holes and their data
+                    third = Workspace.create(os.path.join(d, "third.geoh5"), version=case.get("version", 2.0))
+                    others.append(third)
+                    cg2 = g.copy(parent=third)
+                    victim = sorted([c for c in cg2.children if type(c).__name__.endswith("Drillhole")], key=lambda c: c.name)[:1]
+                    if victim:
+                        third.remove_entity(victim[0])
+                    del cg2, victim
             elif op == "copy_group":
                 # a copy of the whole group inside the same workspace: from now on two groups own rows
                 if ws.get_entity("DH copy")[0] is None:
@@ -300,6 +323,21 @@ def run_history(case):
                 if "budget" not in group_data:
                     ws.create_entity(Data, entity={"parent": g, "name": "budget", "association": "GROUP", "values": np.array([1.0, 2.0, 3.0]) + step}, entity_type={"primitive_type": "FLOAT"})
                     group_data["budget"] = np.array([1.0, 2.0, 3.0]) + step
+            elif op == "group_comment":
+                # plain (not concatenated) data held by the drillhole group itself
+                if "comments" not in group_plain:
+                    g.add_comment(f"note {step}", "tester")
+                    group_plain["comments"] = True
+            elif op == "group_comment_remove":
+                if group_plain.get("comments"):
+                    com = [c for c in g.children if type(c).__name__ == "CommentsData"]
+                    if com:
+                        if step % 2:
+                            ws.remove_entity(com[0])
+                        else:
+                            g.remove_children([com[0]])
+                    del com
+                    group_plain["comments"] = False
             elif op == "idle_session":
                 # open, read every registry, close: the file must not change at all
                 del hole, g
@@ -349,7 +387,7 @@ def run_history(case):
         if bad:
             return f"{bad} ({case})"
     finally:
-        for w in (ws, other[0]):
+        for w in [ws, other[0]] + others:
             try:
                 w.close()
             except Exception:
@@ -390,6 +428,10 @@ class ConcatHistories(Contract):
         [("add", 0, "Au"), ("add", 1, "Au"), ("add", 1, "Cu"), ("copy_other_edit", 0, ""), ("update", 1, "Au"), ("reopen", 0, "")],
         [("add", 0, "Au"), ("add", 0, "Cu"), ("add", 1, "Au"), ("reopen", 0, ""), ("copy_other_edit", 0, ""), ("add", 1, "Cu"), ("reopen", 0, "")],
         [("add_text", 0, "Au"), ("add", 0, "Au"), ("add_text", 1, "Au"), ("update_text", 1, "Au"), ("add_text", 1, "Cu"), ("reopen", 0, "")],
+        [("add", 0, "Au"), ("add", 1, "Au"), ("rename", 0, "Au"), ("reopen", 0, ""), ("update", 1, "Au"), ("rename", 1, "Au"), ("reopen", 0, "")],
+        [("add", 0, "Au"), ("add", 0, "Cu"), ("reopen", 0, ""), ("rename", 0, "Cu"), ("add", 0, "Cu"), ("reopen", 0, "")],
+        [("add", 0, "Au"), ("group_comment", 0, ""), ("reopen", 0, ""), ("group_comment_remove", 0, ""), ("reopen", 0, "")],
+        [("group_comment", 0, ""), ("add", 1, "Au"), ("group_comment_remove", 0, ""), ("reopen", 0, ""), ("group_comment", 0, ""), ("reopen", 0, ""), ("add", 0, "Cu"), ("group_comment_remove", 0, ""), ("reopen", 0, "")],
     ]
 
     def native_cases(self, tier, rng):
